@@ -361,6 +361,8 @@ static int next_token(ts_parser_state_t *tpsp, uint32_t flags)
 		    break;
 		}
 		if (add_char(tpsp, (char)tpsp->tps_char) == -1) {
+		    _vnadata_error(vdip, VNAERR_SYSTEM,
+			    "realloc: %s", strerror(errno));
 		    end_text(tpsp);
 		    tpsp->tps_token = T_ERROR;
 		    return -1;
@@ -492,9 +494,11 @@ static int next_token(ts_parser_state_t *tpsp, uint32_t flags)
 	    start_text(tpsp);
 	    do {
 		if (add_char(tpsp, (char)tpsp->tps_char) == -1) {
+		    _vnadata_error(vdip, VNAERR_SYSTEM,
+			    "realloc: %s", strerror(errno));
 		    end_text(tpsp);
 		    tpsp->tps_token = T_ERROR;
-		    return 0;
+		    return -1;
 		}
 		next_char(tpsp);
 	    } while (is_in_word_char(tpsp->tps_char));
